@@ -1,0 +1,15 @@
+//go:build verif
+// +build verif
+
+package mimc7
+
+import (
+	"math/big"
+
+	"github.com/iden3/go-iden3-crypto/v2/ff"
+)
+
+// VerifConstants returns the package-level constants (verification hook, build tag "verif").
+func VerifConstants() (seedHash, iv *big.Int, nRounds int, cts []*ff.Element) {
+	return constants.seedHash, constants.iv, constants.nRounds, constants.cts
+}
